@@ -216,3 +216,79 @@ class ContextInit:
 
     def ensures_no_close_functions_yet(self_post):
         return seq_len(self_post._before_close) == 0
+
+
+# ---- BMPController._send_scp: the connection a board's command travels over, and what is handed to it ---------------------
+CONN = TRec("Conn", __id__=TInt())
+
+
+def _conn_get(E, obj, args, kwargs, st, node):
+    """self.connections.get(key, None): the board's own connection (3-tuple key: ghost g_board_conn) or the frame's (2-tuple
+    key: ghost g_frame_conn); the lookups are recorded"""
+    key = args[0]
+    s = st.copy()
+    s.trace = ListV(s.trace.items + (("lookup",) + tuple(key),))
+    return [(s, st.env["g_board_conn" if len(key) == 3 else "g_frame_conn"], None)]
+
+
+def _conn_send_scp(E, obj, args, kwargs, st, node):
+    s = st.copy()
+    s.trace = ListV(s.trace.items + (("send_scp", obj.fields["__id__"]) + tuple(args) + tuple(sorted(kwargs.items())),))
+    return [(s, st.env["g_reply"], None)]
+
+
+@contract("rig/machine_control/bmp_controller.py::BMPController._send_scp")
+class BMPSendScp:
+    """called as _send_scp(cabinet, frame, board, cmd, arg1, expected_args=...)"""
+    properties = ("C18",)
+    params = dict(self=TRec("BMPController", connections=TRec("Dict"), _scp_data_length=TOpt(TInt(1, None))),
+                  cabinet=TInt(0, None), frame=TInt(0, None), board=TInt(0, 31), args=TTuple(TInt(), TInt()),
+                  g_expected=TInt(0, 3), g_board_conn=TOpt(CONN), g_frame_conn=TOpt(CONN), g_reply=TInt())
+    externals = {"Dict.get": _conn_get, "Conn.send_scp": _conn_send_scp}
+    options = {"kwargs": {"expected_args": "g_expected"}}
+    raises = {"AssertionError": None}
+    assumptions = ["the connections dictionary and the connections are opaque: lookups and the command handed over are recorded; T6: assert statements are executed"]
+
+    def native(cabinet):
+        raise __import__("pyvc.replay", fromlist=["OutsideHarness"]).OutsideHarness()
+
+    def raises_AssertionError(g_board_conn, g_frame_conn, _trace):
+        # no connection to the board nor to its frame: refused before anything is sent
+        return g_board_conn is None and g_frame_conn is None and all(t[0] == "lookup" for t in _trace)
+
+    def ensures_goes_over_the_boards_own_connection_else_the_frames(self, cabinet, frame, board, args, g_expected, g_board_conn, g_frame_conn, g_reply, result, _trace):
+        conn = unopt(g_board_conn).__id__ if g_board_conn is not None else unopt(g_frame_conn).__id__
+        length = 512 if self._scp_data_length is None else unopt(self._scp_data_length)     # (512: the longest version reply, until the buffer size is known)
+        sends = [t for t in _trace if t[0] == "send_scp"]
+        return (result == g_reply and _trace[0] == ("lookup", cabinet, frame, board)
+                and len(sends) == 1
+                and sends[0][1] == conn and sends[0][2] == length and sends[0][3] == 0 and sends[0][4] == 0 and sends[0][5] == board
+                and sends[0][6] == args[0] and sends[0][7] == args[1]
+                and sends[0][8] == ("expected_args", g_expected))
+
+
+def _get_conn_ext(E, obj, args, kwargs, st, node):
+    """self._get_connection(x, y) (its own contract: GetConnection): recorded; returns the ghost connection g_conn"""
+    s = st.copy()
+    s.trace = ListV(s.trace.items + (("connection_for",) + tuple(args),))
+    return [(s, st.env["g_conn"], None)]
+
+
+@contract("rig/machine_control/machine_controller.py::MachineController._send_scp")
+class MCSendScp:
+    """called as _send_scp(x, y, p, cmd, arg1, expected_args=...): the command goes, with exactly these coordinates and
+    arguments, over the connection chosen for chip (x, y)"""
+    properties = ("C18",)
+    params = dict(self=TRec("MachineController", _scp_data_length=TOpt(TInt(1, None))), x=TInt(0, 255), y=TInt(0, 255), p=TInt(0, 17),
+                  args=TTuple(TInt(), TInt()), g_expected=TInt(0, 3), g_conn=CONN, g_reply=TInt())
+    externals = {"MachineController._get_connection": _get_conn_ext, "Conn.send_scp": _conn_send_scp}
+    options = {"kwargs": {"expected_args": "g_expected"}}
+    assumptions = ["_get_connection is external here (contract GetConnection); the connection is opaque: the command handed over is recorded"]
+
+    def native(x):
+        raise __import__("pyvc.replay", fromlist=["OutsideHarness"]).OutsideHarness()
+
+    def ensures_sent_over_the_connection_of_the_target_chip_with_the_resolved_coordinates(self, x, y, p, args, g_expected, g_conn, g_reply, result, _trace):
+        length = 512 if self._scp_data_length is None else unopt(self._scp_data_length)
+        return (result == g_reply and len(_trace) == 2 and _trace[0] == ("connection_for", x, y)
+                and _trace[1] == ("send_scp", g_conn.__id__, length, x, y, p, args[0], args[1], ("expected_args", g_expected)))
